@@ -25,6 +25,8 @@ list exactly as `add_constraint` does.
 namespace PPLV.Solver.BB
 open PPLV.Lin PPLV.Solver
 
+deriving instance DecidableEq for PPLV.Solver.Pt
+
 /-- a row of `input_cs`: `coeffs·x + k ≥ 0` or `= 0` -/
 structure InRow where
   coeffs : List Int
@@ -61,7 +63,7 @@ inductive LPResult
   | unfeasible
   | unbounded (p : Pt)
   | optimized (p : Pt)
-deriving Repr, Inhabited
+deriving Repr, Inhabited, DecidableEq
 
 abbrev Oracle := Node → Option LPResult
 
@@ -77,7 +79,7 @@ structure Inc where
   has : Bool
   val : Rat
   pt : Pt
-deriving Repr, Inhabited
+deriving Repr, Inhabited, DecidableEq
 
 /-- the state `solve()` starts from: no incumbent, `g = point()` -/
 def Inc.init : Inc := ⟨false, 0, ⟨[], 1⟩⟩
@@ -156,7 +158,7 @@ inductive Outcome
   | unfeasible
   | unbounded (p : Pt)
   | optimized (v : Rat) (p : Pt)
-deriving Repr, Inhabited
+deriving Repr, Inhabited, DecidableEq
 
 /-- the MIP case of `MIP_Problem::solve` (:332): relaxation unfeasible ⇒ UNFEASIBLE, otherwise
     `solve_mip` on a copy without incumbent -/
@@ -211,5 +213,33 @@ def isMipSatisfiable (lp : SatOracle) : Nat → Node → Option (Option Pt)
         | none => none
         | some (some q) => some (some q)                                -- :2342
         | some none => isMipSatisfiable lp fuel (N.addRow (branchGe i (ceilQ (coord p i))))   -- :2353
+
+/-! ### a reference LP oracle (verified answers, searched points) -/
+
+/-- candidate points of `cs`: optimal vertices for a few objectives (untrusted, checked by the caller) -/
+def pointCandidates (n : Nat) (cs : List Con) (e : List Int) : List Pt :=
+  lpCandidates n e cs ++ lpCandidates n (negL e) cs ++
+    ((List.range n).flatMap fun i => lpCandidates n (unitRow i 1) cs ++ lpCandidates n (unitRow i (-1)) cs) ++ [⟨[], 1⟩]
+
+/-- the LP oracle built from the proved reference `lpAnswer` (`C06.lp_spec`); the point is searched
+    among dual-simplex candidates and checked exactly; `none` when no point was found -/
+def refOracle : Oracle := fun N =>
+  let P := N.toProblem
+  let R : Problem := { P with ints := [] }
+  match lpAnswer P with
+  | .unfeasible => some .unfeasible
+  | .optimum v =>
+    ((pointCandidates P.n P.cs P.maxObj.1).find? fun x =>
+        decide (0 < x.den) && checkFeasible R x && decide (P.objVal x.val = v)).map LPResult.optimized
+  | .unbounded =>
+    ((pointCandidates P.n P.cs P.maxObj.1).find? fun x => decide (0 < x.den) && checkFeasible R x).map LPResult.unbounded
+  | .unknownUnboundedIntVar => none
+
+/-- the satisfiability oracle an LP oracle induces -/
+def satOfLp (lp : Oracle) : SatOracle := fun N =>
+  (lp N).map fun r => match r with
+    | .unfeasible => none
+    | .unbounded p => some p
+    | .optimized p => some p
 
 end PPLV.Solver.BB
